@@ -55,6 +55,16 @@ CLAIMED['C06'] = (
     'a differential oracle needs no expected values; combinations of option groups and non-int field types are outside the '
     'bounds; known finding K-C06-several-spellings-differing is reported, not hidden',
     'symbolic execution of the real code (CrossHair primitives + z3), differential assertion, path-tree exhaustion, concrete replay')
+CLAIMED['C05'] = (
+    'Bounded symbolic model checking of BaseParser.parse_data / ClassParser init / Schema views against a reference model '
+    'of the documented field contract (vt/dcspec.py:reference): for 9 declarations x option groups x {Schema, DataClass} the '
+    'supplied keys (every accepted spelling, case variants, an unknown key), their order and values (unbounded solver '
+    'integers, a convertible and an invalid string), the lookup strategy and the options are solver-chosen; error kinds '
+    '(fail-fast and collected), the key view, the attribute view, getattr incl. deferred defaults and `in` for every '
+    'spelling must equal the model on every path of the exhausted trees.',
+    'the reference model is part of the claim; where the documentation is silent (several differing spellings of one field) '
+    'the model accepts either outcome; int-typed fields only; option groups are not combined in the quick tier',
+    'symbolic execution of the real code against an executable reference model (CrossHair primitives + z3), path-tree exhaustion, concrete replay')
 NOT_APPLICABLE = {}
 
 def main():
